@@ -30,7 +30,7 @@ def gen_scenario(ctx, k):
             b['uid'] = b['uid'][:6] + bytes([rng.randrange(256)])
         uids.add(b['uid'])
     d = cfggen.write_config(cfg, cfg_dir(f'c15_{k}'))
-    nodes = cfggen.assign_tree(rng, cfg, absent_prob=0.25, unknown=rng.randrange(0, 3))
+    nodes = cfggen.assign_tree(rng, cfg, absent_prob=0.25, unknown=rng.randrange(0, 3), unknown_hubs=rng.choice([0, 0, 1, 2]))
     m = statemodel.Model(cfg, nodes)
     sc = Scn(seed=ctx.seed * 71 + k, watchdog=300000)
     sc.add(*cfggen.bus_lines(cfg, nodes), 'bus brackets 1')
